@@ -125,6 +125,7 @@ class _Part:
     __slots__ = (
         "name", "sem", "state", "killed", "speed", "thread", "blocked_tok",
         "timed_out", "exit_waiters", "started", "exitcode", "is_main", "store",
+        "inflight", "exiting",
     )
 
     def __init__(self, name, is_main=False):
@@ -141,6 +142,8 @@ class _Part:
         self.exitcode = None
         self.is_main = is_main
         self.store = None
+        self.inflight = 0   # items handed to a queue whose feeder has not flushed them yet
+        self.exiting = False
 
 
 class ProcSim:
@@ -148,6 +151,10 @@ class ProcSim:
         from .core import EventLog
 
         self.iso = StateIsolation() if isolate else None
+        # capacity of the pipe under every queue (bytes).  64 KiB on Linux; platforms and
+        # payload sizes differ, so it is a per-run knob: a small capacity makes the
+        # back-pressure paths run even with tiny synthetic payloads.
+        self.pipe_capacity = 65536
 
         self.choices = choices
         self.log = log if log is not None else EventLog(keep=keep_log)
@@ -269,13 +276,7 @@ class ProcSim:
                 q, item = a, b
                 if item[0].killed and not item[3]:
                     continue  # producer was killed before its feeder flushed this item
-                q.fifo.append(item)
-                self.stats["delivered"] += 1
-                self.log.add(self.steps, self.now, item[0].name, "deliver", q.name, item[2])
-                waiters, q.waiters = q.waiters, []
-                for w in waiters:
-                    if w.state == "blocked":
-                        self._ready(w, self._delay(w))
+                q.try_deliver(item)
                 continue
             if kind == "timeout":
                 part, tok = a, b
@@ -335,7 +336,15 @@ class ProcSim:
             part.exitcode = 1
             self.stats["worker_died"] += 1
             self.log.add(self.steps, self.now, part.name, "died", type(e).__name__)
-        self._mark_dead(part)
+        # a real process joins its queue feeder threads before it exits: it is not gone
+        # (is_alive() stays true, join() keeps waiting) until everything it put has been
+        # written into the pipe
+        part.exiting = True
+        if part.inflight <= 0:
+            self._mark_dead(part)
+        else:
+            self.log.add(self.steps, self.now, part.name, "exit_waits_for_feeder",
+                         part.inflight)
         self._schedule(part, returning=False)
 
     def _mark_dead(self, part):
@@ -355,6 +364,9 @@ class ProcSim:
         me = self.current
         part.killed = True
         part.exitcode = -15
+        part.inflight = 0
+        for q in self.queues:
+            q.stalled = [it for it in q.stalled if it[0] is not part]
         self._mark_dead(part)
         if part is me:
             raise SimKilled()
@@ -425,6 +437,8 @@ class SimQueue:
     def __init__(self, sim):
         self.sim = sim
         self.fifo = collections.deque()
+        self.pipe_bytes = 0
+        self.stalled = []  # items whose feeder is blocked on the full pipe, in order
         self.waiters = []
         self.last_deliver = {}
         sim.queues.append(self)
@@ -435,6 +449,52 @@ class SimQueue:
         if isinstance(obj, tuple) and obj and isinstance(obj[0], int):
             return obj[0]
         return -1
+
+    def try_deliver(self, item):
+        """The producer's feeder thread writes the item into the pipe - if it fits.  An
+        item that does not fit (and everything the same producer put after it) waits
+        until a reader has made room."""
+        sim = self.sim
+        producer = item[0]
+        if any(it[0] is producer for it in self.stalled) or (
+                self.fifo and self.pipe_bytes + len(item[1]) > sim.pipe_capacity):
+            self.stalled.append(item)
+            sim.stats["pipe_full"] += 1
+            sim.log.add(sim.steps, sim.now, producer.name, "pipe_full", self.name, item[2])
+            return
+        self._into_pipe(item)
+
+    def _into_pipe(self, item):
+        sim = self.sim
+        producer = item[0]
+        self.fifo.append(item)
+        self.pipe_bytes += len(item[1])
+        producer.inflight -= 1
+        sim.stats["delivered"] += 1
+        sim.log.add(sim.steps, sim.now, producer.name, "deliver", self.name, item[2])
+        if producer.exiting and producer.inflight <= 0 and producer.state != "dead":
+            sim._mark_dead(producer)
+        waiters, self.waiters = self.waiters, []
+        for w in waiters:
+            if w.state == "blocked":
+                sim._ready(w, sim._delay(w))
+
+    def _drain_stalled(self):
+        """A reader made room: blocked feeders continue, each in its own order."""
+        sim = self.sim
+        progress = True
+        while progress and self.stalled:
+            progress = False
+            blocked_producers = set()
+            for k, item in enumerate(self.stalled):
+                if item[0] in blocked_producers:
+                    continue
+                if not self.fifo or self.pipe_bytes + len(item[1]) <= sim.pipe_capacity:
+                    del self.stalled[k]
+                    self._into_pipe(item)
+                    progress = True
+                    break
+                blocked_producers.add(item[0])
 
     def put(self, obj, block=True, timeout=None):
         sim = self.sim
@@ -454,6 +514,7 @@ class SimQueue:
         latency = sim._delay(me)
         t = max(self.last_deliver.get(me.name, 0), sim.now + latency)
         self.last_deliver[me.name] = t
+        me.inflight += 1
         sim._push(t, "deliver", self, (me, data, idx, False))
         sim.stats["put"] += 1
         sim.sync(me, "put", self.name, idx, len(data))
@@ -471,6 +532,9 @@ class SimQueue:
         while True:
             if self.fifo:
                 producer, data, idx, _ = self.fifo.popleft()
+                self.pipe_bytes -= len(data)
+                if self.stalled:
+                    self._drain_stalled()
                 obj = ForkingPickler.loads(data)
                 sim.stats["get"] += 1
                 sim.gets.append((me.name, self.name, idx))
